@@ -4,7 +4,7 @@ from lib.coqterm import cbytes, clist, copt, cpair, cnat, hx, unhx
 
 ID = "C34"
 QUICK_N = 3000
-THOROUGH_N = 30000
+THOROUGH_N = 24000
 SHARD = 300
 RULE = ("15 case kinds: quote/unquote, url.encode (with similar_to), url.decode, Request.query set/get on a raw path "
         "(params, query, fragment, TAB/CR/LF, repeated slashes), path_components, urlencoded_form on EXISTING requests (prior Content-Type: none, "
